@@ -398,7 +398,21 @@ def generate(repo, gen_dir):
     L.append('Definition gen_figure_counter : name := %s.' % cname(m['figure']))
     L.append('Definition gen_table_counter : name := %s.' % cname(m['table']))
     L.append('Definition gen_ascii_letters : str := %s.' % cstr(m['letters']))
+    # every format string of the three classes with its parse by Python's re (the two passes of TheCounter.invoke);
+    # Proofs/NumberingProofs.v re-proves that the Model's scanner (Model/FormatParse.v) parses each of them to the same thing
+    raw = []
+    for cls in ('article', 'report', 'book'):
+        for op in classes[cls]:
+            fm = (op[3] if op[3] is not None else '${%s}' % op[1]) if op[0] == 'new' else op[2]
+            if fm not in raw:
+                raw.append(fm)
+    for cls in ('article', 'book'):
+        if apps[cls]['fmt'] not in raw:
+            raw.append(apps[cls]['fmt'])
+    L.append('Definition gen_format_strings : list (str * fmt) := [')
+    L.append(';\n'.join('  (* %s *) (%s, %s)' % (r.replace('*', '+'), cstr(r), cfmt(parse_format(r))) for r in raw))
+    L.append('].')
     text = '\n'.join(L) + '\n'
     core.write_if_changed(os.path.join(gen_dir, 'ClassCounters.v'), text)
-    return dict(file='Gen/ClassCounters.v', classes={k: len(v) for k, v in classes.items()}, sections=len(secs), ignored=ignored,
+    return dict(file='Gen/ClassCounters.v', format_strings=len(raw), classes={k: len(v) for k, v in classes.items()}, sections=len(secs), ignored=ignored,
                 appendix={k: v['zero'] for k, v in apps.items()})
